@@ -96,6 +96,17 @@ def runOp (words : List String) : String :=
       | .timeout _ => "timeout"
     | .err m => "loaderr " ++ m
     | .panic => "loadpanic"
+  | ["INTERP", src] =>
+    -- end to end, as `Interpret` does: parse, and if accepted execute
+    let c := parseWhole (str "input") (fromHex src)
+    if c.stuck then "STUCK" else
+    if !c.ok then s!"rejected log={hexOrDash c.log}" else
+    match execute c.prog false 10000000 with
+    | .done vm err =>
+      let e := match err with | some m => toHex m | none => "-"
+      s!"accepted log={hexOrDash (c.log ++ vm.log.reverse.flatten)} err={e} out={hexOrDash (outBytes vm.out)} blocks={"+".intercalate (vm.result.map fmtBlock)} binding={fmtBinding vm.binding}"
+    | .panic _ => "panic"
+    | .timeout _ => "timeout"
   | ["LOAD", hex] =>
     match load (fromHex hex) with
     | .ok p => "ok " ++ fmtProg p
